@@ -148,8 +148,15 @@ func c15(c *Ctx) {
 		}
 		c.ExpectAll("apply/pageN-is-commit", vals, pat(hdrCommit), 1, "the page count stored is the header's commit (0 for a tombstone: hidden, recreatable)", "")
 	}
-	c.OnlyGuards("apply/page-size-adopted", ap, p.Writes("litefs.DB.pageSize"), gs(GP("(0 == p0.pageSize)", true), G(`.* == nil\)|\(nil == .*`, true)), 1,
-		"the page size is adopted from the header whenever it is still unknown - not only when pages follow", "a node whose first knowledge of a database is its tombstone must still be able to serve snapshots of it (page size 0 is rejected by the encoder: the stream to a joining replica aborts for ever)")
+	c.OnlyGuards("apply/page-size-adopted", ap, p.Writes("litefs.DB.pageSize"), gs(GP("(0 == p0.pageSize)", true), GP("(0 == p0.pageSize)", false), GP("ltx.(*Header).IsSnapshot(@@)", true), G(`.* == nil\)|\(nil == .*`, true)), 1,
+		"the page size is adopted from the header whenever it is still unknown (and from every snapshot) - not only when pages follow", "a node whose first knowledge of a database is its tombstone must still be able to serve snapshots of it (page size 0 is rejected by the encoder: the stream to a joining replica aborts for ever)")
+	c.AfterEdge("apply/page-size-adopted/when-unknown", ap, GP("(0 == p0.pageSize)", true), p.Writes("litefs.DB.pageSize"), func(in ssa.Instruction) bool {
+		if _, ok := in.(*ssa.Return); ok {
+			return true
+		}
+		return callCommon(in) != nil && !p.PlainCalls("ltx.(*Decoder).Header")(in)
+	}, 1, "an unknown page size is adopted at once: nothing but the header accessor is called and nothing returns between the test and the store", "")
+	c.snapshotPageSizeAdopted("apply/page-size-adopted")
 	{
 		var vals []string
 		for _, in := range Instrs(c.F(ap), p.Writes("litefs.DB.pageSize")) {
@@ -267,4 +274,14 @@ func fieldStoreVal(p *Prog, in ssa.Instruction) string {
 		}
 	}
 	return "?"
+}
+
+// snapshotPageSizeAdopted (C06, C15): a snapshot replaces the whole database,
+// so ApplyLTXNoLock takes its page size before the first page is handled.
+func (c *Ctx) snapshotPageSizeAdopted(prefix string) {
+	p := c.P
+	ap := "litefs.(*DB).ApplyLTXNoLock"
+	c.BeforeG(prefix+"/from-snapshot", ap, p.PlainCalls("litefs.(*DB).writeDatabasePage", "ltx.(*Decoder).DecodePage"), p.Writes("litefs.DB.pageSize"),
+		gs(GP("ltx.(*Header).IsSnapshot(@@)", false)), 1,
+		"every path to the first decoded or written page has stored the file's page size, unless the file was found not to be a snapshot", "F44: a node whose database has another page size (diverged, or re-created after a drop) could never be re-snapshotted: the first page stops the node")
 }
